@@ -420,10 +420,10 @@ drv("QGauss_gaussfunc", "integrate", "def f(xvals):\n    q = integrate.QGauss(8)
 # ------------------------------------------------------------------ random generators
 drv("Generator_points", "random",
     "def f(pofx, x):\n    g = random.Generator(pofx, x=x, nx=50, seed=3)\n    return g.sample(20)\n", {"pofx": "pofx", "x": "grid"}, nd=(1,), dt=FLT,
-    func="random.Generator", valuation="pofx, x arrays; default method", static_skip="the extractor cannot fold `isinstance(pofx, FunctionType)`: it keeps the branch that CALLS pofx with the x grid as operand")
+    func="random.Generator", valuation="pofx, x arrays; default method")
 drv("Generator_points_cut", "random",
     "def f(pofx, x):\n    g = random.Generator(pofx, x=x, nx=50, method='cut', seed=3)\n    return g.sample(20)\n", {"pofx": "pofx", "x": "grid"},
-    nd=(1,), dt=FLT, func="random.Generator", valuation="pofx, x arrays; method=cut", static_skip="the extractor cannot fold `isinstance(pofx, FunctionType)`: it keeps the branch that CALLS pofx with the x grid as operand")
+    nd=(1,), dt=FLT, func="random.Generator", valuation="pofx, x arrays; method=cut")
 for cls in ("Normal", "LogNormal"):
     for m in ("lnprob", "prob"):
         drv("%s_%s" % (cls, m), "random", "def f(x):\n    d = random.%s(1.5, 0.4)\n    return d.%s(x)\n" % (cls, m), {"x": "small"},
